@@ -95,6 +95,14 @@ func (d *bytesDecoder) decodeStreamBinary(s *Stream, depth int64, p unsafe.Point
 		err := d.sliceDecoder.DecodeStream(s, depth, p)
 		return nil, err
 	}
+	if c == 'n' {
+		if err := nullBytes(s); err != nil {
+			return nil, err
+		}
+		// null clears the slice
+		*(*[]byte)(p) = nil
+		return nil, nil
+	}
 	return d.stringDecoder.decodeStreamByte(s)
 }
 
@@ -113,6 +121,14 @@ func (d *bytesDecoder) decodeBinary(ctx *RuntimeContext, cursor, depth int64, p 
 			return nil, 0, err
 		}
 		return nil, c, nil
+	}
+	if buf[cursor] == 'n' {
+		if err := validateNull(buf, cursor); err != nil {
+			return nil, 0, err
+		}
+		// null clears the slice
+		*(*[]byte)(p) = nil
+		return nil, cursor + 4, nil
 	}
 	return d.stringDecoder.decodeByte(buf, cursor)
 }
